@@ -71,6 +71,14 @@ HOLES += [
      "let literal = literal.to_ascii_lowercase();",
      {'if !literal.is_ascii() { bail!("Case insensitive matching only works for ascii strings. ({literal:?} was not ascii)"); } ': "true",
       "": "false"}, "true"),
+    ("codegen/src/rule.rs", "leftrec_needs_clone", "bool", "must be @no_skip_ws to prevent recursion\"); } if ",
+     "(flags.memoize || flags.left_recursive)", " && !settings.derives.contains(&\"Clone\".into()) {",
+     {"flags.memoize": "false", "(flags.memoize || flags.left_recursive)": "true"}, "true"),
+    ("codegen/src/rule.rs", "pos_variants_checked", "bool", "self.check_flags(&flags, &settings)?; ",
+     "self.check_position_variants(&flags, &fields, grammar)?; ", "let name = &self.name;",
+     {"self.check_position_variants(&flags, &fields, grammar)?; ": "true", "": "false"}, "true"),
+    ("codegen/src/common.rs", "raw_kw_guard", "bool", "pub const RUST_KEYWORDS: ", '[&str; 47] = [ "as", "break", "const", "continue", "else", "enum", "extern", "false", "fn", "for", "if", "impl", "in", "let", "loop", "match", "mod", "move", "mut", "pub", "ref", "return", "static", "struct", "trait", "true", "type", "unsafe", "use", "where", "while", "async", "await", "dyn", "abstract", "become", "box", "do", "final", "macro", "override", "priv", "typeof", "unsized", "virtual", "yield", "try", ];', "",
+     {'[&str; 47] = [ "as", "break", "const", "continue", "else", "enum", "extern", "false", "fn", "for", "if", "impl", "in", "let", "loop", "match", "mod", "move", "mut", "pub", "ref", "return", "static", "struct", "trait", "true", "type", "unsafe", "use", "where", "while", "async", "await", "dyn", "abstract", "become", "box", "do", "final", "macro", "override", "priv", "typeof", "unsized", "virtual", "yield", "try", ];': "true", '[&str; 50] = [ "as", "break", "const", "continue", "else", "enum", "extern", "false", "fn", "for", "if", "impl", "in", "let", "loop", "match", "mod", "move", "mut", "pub", "ref", "return", "self", "Self", "static", "struct", "super", "trait", "true", "type", "unsafe", "use", "where", "while", "async", "await", "dyn", "abstract", "become", "box", "do", "final", "macro", "override", "priv", "typeof", "unsized", "virtual", "yield", "try", ];': "false"}, "true"),
     ("cli/src/main.rs", "cli_exit_nonzero", "bool", 'println!("{}: {}", "Error".red().bold(), e)', "; std::process::exit(1);", " } }",
      {"; std::process::exit(1);": "true", "": "false", ";": "false"}, "true"),
 ]
